@@ -149,11 +149,21 @@ class Structure:
         self.records.append(kw)
         return len(self.records) - 1
 
-    def lines(self, end=True):
+    def lines(self, end=True, chain_order=None):
+        """PDB lines; chain_order permutes the constructed chains in the file
+        (coordinates unchanged) - used for order-independence relations."""
+        idx = list(range(len(self.records)))
+        if chain_order is not None:
+            def key(i):
+                g = self.records[i]["group"]
+                return (0, chain_order.index(g[1]), i) if g[0] == "chain" else (1, 0, i)
+
+            idx.sort(key=key)
         out = []
-        for i, r in enumerate(self.records):
+        for n, i in enumerate(idx):
+            r = self.records[i]
             out.append(
-                fmt_atom(i + 1, r["name"], r["resn"], r["chain"], r["seq"], r["icode"],
+                fmt_atom(n + 1, r["name"], r["resn"], r["chain"], r["seq"], r["icode"],
                          r["xyz"], rec=r["rec"], alt=r["alt"])  # fmt: skip
             )
             if i in self.ters:
@@ -162,8 +172,8 @@ class Structure:
             out.append("END")
         return out
 
-    def text(self):
-        return "\n".join(self.lines()) + "\n"
+    def text(self, chain_order=None):
+        return "\n".join(self.lines(chain_order=chain_order)) + "\n"
 
     def heavy_xyz(self):
         return np.array([r["xyz"] for r in self.records if topo.heavy(r["name"])])
@@ -200,7 +210,20 @@ def materialise(desc) -> Structure:
         for r in res:
             r["atoms"] = {k: R @ (v - cen) for k, v in r["atoms"].items()}
         con = ch.get("contact")
-        if con is not None and placed_xyz:
+        ssb = ch.get("ss_to")
+        if ssb is not None and built:
+            # place this chain so that its CYS SG lies at distance d from the SG of an
+            # already placed chain, on the outward ray through that SG
+            tgt_res = built[ssb["chain"]][ssb["res"]]
+            sg1 = tgt_res["atoms"]["SG"]
+            P1 = np.vstack(placed_xyz)
+            u = sg1 - P1.mean(0)
+            u = u / (np.linalg.norm(u) or 1.0)
+            u = u + ssb.get("tiltw", 0.3) * np.asarray(ssb.get("tilt", [0, 0, 0]), float)
+            u = u / (np.linalg.norm(u) or 1.0)
+            sg2 = res[ssb["own"]]["atoms"]["SG"]
+            shift = sg1 + ssb["d"] * u - sg2
+        elif con is not None and placed_xyz:
             P1 = np.vstack(placed_xyz)
             P2 = np.array([v for r in res for v in r["atoms"].values()])
             tgt = P1[con["target"] % len(P1)]
